@@ -17,6 +17,9 @@ type TWCCSpec struct {
 	RefTime  uint32 // 24 bit, multiples of 64 ms
 	FbCount  uint8
 	Statuses []TWCCStatus
+	// OvershootAnySymbol lets the final run-length chunk run past the status count whatever its symbol (there are receive
+	// deltas for the declared statuses only); otherwise only a final not-received run overshoots.
+	OvershootAnySymbol bool
 }
 
 func symbolOf(s TWCCStatus) uint16 {
@@ -62,7 +65,7 @@ func EncodeTWCC(t *rapid.T, spec TWCCSpec, overshoot int) *rtcp.TransportLayerCC
 				n = rapid.IntRange(1, run).Draw(t, "runLen")
 			}
 			rl := uint16(n) //nolint:gosec
-			if i+n == len(syms) && syms[i] == rtcp.TypeTCCPacketNotReceived && overshoot > 0 {
+			if i+n == len(syms) && (syms[i] == rtcp.TypeTCCPacketNotReceived || spec.OvershootAnySymbol) && overshoot > 0 {
 				rl += uint16(overshoot) //nolint:gosec
 			}
 			fb.PacketChunks = append(fb.PacketChunks, &rtcp.RunLengthChunk{Type: rtcp.TypeTCCRunLengthChunk, PacketStatusSymbol: syms[i], RunLength: rl})
